@@ -17,8 +17,12 @@ def must_hold(d):
         bad.append("signature not valid under a published key with that key's algorithm (sig=%s keys=%s)" % (d["sig"], d["keys"]))
     if d["iss"] != "ok":
         bad.append("iss is not the provider issuer")
-    if d["aud"] not in ("str", "one", "trusted"):
-        bad.append("aud lacks the client id / has an untrusted audience")
+    # the audiences the generator put into the token, judged against what the OPERATOR configured as trusted (openid.audiences =
+    # ["trusted-aud"]; the client id itself): the empty string, the deployment's resource indicator (set or not), the provider's
+    # issuer and any other name are untrusted additional audiences
+    if d["aud"] not in ("str", "one", "trusted", "twice", "trustedfirst"):
+        bad.append("aud lacks the client id / has an untrusted additional audience (aud shape %s, resource indicator %s)"
+                   % (d["aud"], "configured" if d.get("res") else "not configured"))
     if d["exp"] in ("m6", "missing", "epoch"):
         bad.append("exp not within the permitted skew (exp=%s)" % d["exp"])
     if d["iat"] == "p6":
@@ -55,7 +59,7 @@ def run(ctx):
     for line in open(pre + ".obs"):
         d = json.loads(line)
         n += 1
-        key = tuple(d[k] for k in ("sig", "keys", "iss", "aud", "exp", "iat", "nbf", "nonce", "sub", "sid", "sidreq", "acr", "acrcfg", "shape", "jwks", "now_off_ms"))
+        key = tuple(d[k] for k in ("sig", "keys", "iss", "aud", "exp", "iat", "nbf", "nonce", "sub", "sid", "sidreq", "acr", "acrcfg", "shape", "jwks", "res", "now_off_ms"))
         # end-to-end effect: a rejected response leaves no session cookie and no store entry; an accepted one leaves exactly one usable session
         if not d["accepted"] and (d["session_cookie"] or d.get("store_keys_after", 0) != d.get("store_keys_before", 0)):
             ctx.violation("c03-session-after-rejection", "the callback answered %s but a session cookie / store entry was produced" % d["status"], {"point": d["point"]})
@@ -67,8 +71,11 @@ def run(ctx):
             bad = must_hold(d)
             if bad:
                 k = "c03-epoch-exp-accepted" if bad == ["exp not within the permitted skew (exp=epoch)"] else "c03-invalid-token-accepted"
+                if len(bad) == 1 and bad[0].startswith("aud lacks"):
+                    # one finding per audience shape and resource-indicator setting
+                    k = "c03-untrusted-audience-accepted:%s%s" % (d["aud"], "+resource-indicator-configured" if d.get("res") else "")
                 ctx.violation(k, "token response accepted although: " + "; ".join(bad), {"point": d["point"], "checks_failed": bad})
-        for dim in ("sig", "keys", "aud", "exp", "shape", "jwks"):
+        for dim in ("sig", "keys", "aud", "exp", "shape", "jwks", "res"):
             dist.setdefault(dim, {}).setdefault(str(d[dim]), 0)
             dist[dim][str(d[dim])] += 1
     base_ok = False
@@ -81,7 +88,9 @@ def run(ctx):
     ctx.nontrivial += len(distinct)
     ctx.extra["input_distribution"] = dict(dist, points=n, accepted=acc)
     ctx.samples.append({"first_point": json.loads(open(pre + ".obs").readline())["point"]})
-    ctx.rule = ("fault lattice {signature kind x key-set shape x iss x aud shape x exp x iat x nbf x nonce x sub x sid x sid-required x acr x configured acr x response shape x "
-                "cached-JWKS freshness x sub-second clock offset}: baseline, every single deviation and every pair of deviations (thorough: triples whose third deviation is the signature kind, the audience shape or the JWKS freshness); tokens are assembled and signed "
+    ctx.rule = ("fault lattice {signature kind x key-set shape x iss x aud shape (single string, one element, + configured trusted audience, + named untrusted, "
+                "+ empty string, + the deployment's resource indicator, client id twice, trusted + untrusted, + the issuer, trusted first, without the client id, none) "
+                "x resource indicator configured / not x exp x iat x nbf x nonce x sub x sid x sid-required x acr x configured acr x response shape x "
+                "cached-JWKS freshness x sub-second clock offset}: baseline, every single deviation and every pair of deviations (thorough: triples with six of the dimensions); tokens are assembled and signed "
                 "by hand (RS256 / PS256 / ES256 / HS256-over-public-key / none)")
     ctx.assumptions += ["ideal signatures (real RSA / ECDSA / HMAC are exercised but not modelled)", "jwx v2.1.4 behaviour is modelled, tied by this lattice"]
